@@ -866,13 +866,13 @@ func (v Value) toReflectValue(typ reflect.Type) (reflect.Value, error) {
 			obj := v.object()
 			switch vl := obj.value.(type) {
 			case *goStructObject: // Struct
-				return reflect.ValueOf(vl.value.Interface()), nil
+				return reflectAssignable(reflect.ValueOf(vl.value.Interface()), typ)
 			case *goMapObject: // Map
-				return reflect.ValueOf(vl.value.Interface()), nil
+				return reflectAssignable(reflect.ValueOf(vl.value.Interface()), typ)
 			case *goArrayObject: // Array
-				return reflect.ValueOf(vl.value.Interface()), nil
+				return reflectAssignable(reflect.ValueOf(vl.value.Interface()), typ)
 			case *goSliceObject: // Slice
-				return reflect.ValueOf(vl.value.Interface()), nil
+				return reflectAssignable(reflect.ValueOf(vl.value.Interface()), typ)
 			}
 			exported := reflect.ValueOf(v.export())
 			if exported.Type().ConvertibleTo(typ) {
@@ -882,12 +882,28 @@ func (v Value) toReflectValue(typ reflect.Type) (reflect.Value, error) {
 		case valueEmpty, valueResult, valueReference:
 			// These are invalid, and should panic
 		default:
-			return reflect.ValueOf(v.value), nil
+			return reflectAssignable(reflect.ValueOf(v.value), typ)
 		}
 	}
 
 	// A kind nothing can be converted to (complex, chan, func, pointer): a TypeError for the script.
 	panic(conversionException(fmt.Errorf("TypeError: invalid conversion of %v (%v) to reflect.Type: %v", v.kind, v, typ)))
+}
+
+// reflectAssignable returns value if it can be stored in a variable of type
+// typ (undefined and null become the zero value of a nilable type), else an error.
+func reflectAssignable(value reflect.Value, typ reflect.Type) (reflect.Value, error) {
+	if !value.IsValid() {
+		switch typ.Kind() {
+		case reflect.Interface, reflect.Map, reflect.Slice, reflect.Ptr, reflect.Func, reflect.Chan:
+			return reflect.Zero(typ), nil
+		}
+		return reflect.Value{}, fmt.Errorf("TypeError: could not convert undefined to reflect.Type: %v", typ)
+	}
+	if !value.Type().AssignableTo(typ) {
+		return reflect.Value{}, fmt.Errorf("TypeError: could not convert %v to reflect.Type: %v", value, typ)
+	}
+	return value, nil
 }
 
 func stringToReflectValue(value string, kind reflect.Kind) (reflect.Value, error) {
